@@ -222,6 +222,10 @@ def _run_shard(args):
     try:
         import importlib
         mod = importlib.import_module("checks." + modname)
+        if os.environ.get("VERIF_DUMP_AFTER"):
+            # development aid: where is a slow shard waiting?  (stack dumps to stderr every N seconds)
+            import faulthandler
+            faulthandler.dump_traceback_later(float(os.environ["VERIF_DUMP_AFTER"]), repeat=True, file=open("/var/tmp/verif_dump_%d.txt" % os.getpid(), "w"))
         ctx = Ctx(mod.PROPERTY, tier, seed, shard, budget_s)
         mod.run(ctx)
         return ("ok", ctx.result())
